@@ -409,3 +409,19 @@ Proof.
   intros n npos. unfold call_shape, Known_C13_capitalised_function. simpl orb.
   destruct (looks_like_constructor n); destruct npos; reflexivity.
 Qed.
+
+(* ------------------------------------------------------------------ after the repairs: no unescaped site is left *)
+
+Lemma all_sites_safe_table : forallb safe_site SITES = true.
+Proof. vm_compute; reflexivity. Qed.
+
+Lemma every_site_safe : forall s n, In s SITES -> legal_incan_ident n = true ->
+  Known_C13_not_rawable n = false ->
+  valid_rust_ident (emit_ident s n) = true /\
+  (forall b, legal_incan_ident b = true -> emit_ident s n = emit_ident s b -> n = b).
+Proof.
+  intros s n Hin Hl Hk. pose proof all_sites_safe_table as F. rewrite forallb_forall in F.
+  pose proof (F s Hin) as Hs. split.
+  - exact (proj1 (site_safe s n Hs Hl Hk)).
+  - intros b Hb E. exact (site_injective s n b Hs Hl Hb E).
+Qed.
